@@ -121,7 +121,7 @@ impl<T: Elem + SatisfyTraits<Tr>, M: MX, Tr: TrX + ?Sized> World<T, M, Tr> {
         if T::SIZE != 0 && a.capacity() != cap { return Err(format!("capacity changed during construction: {} != {}", a.capacity(), cap)); }
         let (b, mb) = if need_b {
             let mut b: AnyVec<Tr, M::Aux> = elem::lib(|| AnyVec::<Tr, M::Aux>::new_in::<T>(<M::Aux as MX>::make()));
-            let mut mb = Vec::new();
+            let mut mb = Vec::with_capacity(16); // harness allocations stay outside the library window
             {
                 let mut t = b.downcast_mut::<T>().unwrap();
                 elem::lib(|| for _ in 0..B_LEN { let v = T::fresh(); mb.push(Mv::Id(v.id())); t.push(v); });
@@ -466,6 +466,35 @@ impl<T: Elem + SatisfyTraits<Tr>, M: MX, Tr: TrX + ?Sized> World<T, M, Tr> {
             if live < visible { out.fail(Class::Own, "dead-visible", format!("{visible} zero-sized elements visible but only {live} alive")); }
         }
         let _ = pre_len;
+        // heap-backed vectors: at most one allocation each, none while cap x size == 0, big and aligned enough (C18)
+        {
+            let mut want: Vec<(usize, usize)> = Vec::new(); // (base ptr, bytes) of every heap-backed vector alive now
+            let mut expect_blocks = 0usize;
+            if M::KIND == BK::Heap {
+                let bytes = a.capacity().saturating_mul(T::SIZE);
+                if bytes > 0 { expect_blocks += 1; want.push((a.downcast_ref::<T>().map(|t| t.as_ptr() as usize).unwrap_or(0), bytes)); }
+            }
+            if let Some(b) = &b { if <M::Aux as MX>::KIND == BK::Heap {
+                let bytes = b.capacity().saturating_mul(T::SIZE);
+                if bytes > 0 { expect_blocks += 1; want.push((b.downcast_ref::<T>().map(|t| t.as_ptr() as usize).unwrap_or(0), bytes)); }
+            } }
+            if M::KIND == BK::Heap || (b.is_some() && <M::Aux as MX>::KIND == BK::Heap) {
+                galloc::with_as(|st| {
+                    if !out.faulted && st.live_blocks() != expect_blocks {
+                        out.fails.push(Fail { class: Class::Alloc, kind: "block-count", detail: format!("{} heap block(s) alive, expected {expect_blocks} (one per heap vector with capacity x size > 0, none otherwise)", st.live_blocks()) });
+                    }
+                    for (ptr, bytes) in &want {
+                        match (0..st.live_blocks()).map(|i| st.live_block(i)).find(|(u, _, _)| u == ptr) {
+                            None => out.fails.push(Fail { class: Class::Alloc, kind: "storage-not-a-block", detail: format!("vector storage {ptr:#x} is not the start of a live allocation") }),
+                            Some((_, size, align)) => {
+                                if size < *bytes { out.fails.push(Fail { class: Class::Alloc, kind: "block-too-small", detail: format!("allocation of {size} bytes backs capacity x size = {bytes} bytes") }); }
+                                if align % T::ALIGN != 0 { out.fails.push(Fail { class: Class::Alloc, kind: "block-misaligned", detail: format!("allocation requested with alignment {align}, element alignment {}", T::ALIGN) }); }
+                            }
+                        }
+                    }
+                });
+            }
+        }
         // tear down
         let r = guarded(move || { drop(a); drop(b); });
         if let Err(e) = r { if !matches!(e, Caught::Injected) { out.fail(Class::Own, "drop-panicked", format!("dropping the vectors panicked: {e:?}")); } }
@@ -531,6 +560,10 @@ pub trait Runner: Sync + Send {
     fn fixed_cap(&self) -> Option<usize>;
     /// Execute one edge from canonical state `st`; `fault_at` = k-th user-code invocation panics (0 = none).
     fn run(&self, st: &St, e: &Edge, fault_at: u32) -> Out;
+    /// overflow-boundary sweep (C10/C18), runs in its own process: returns "RETURNED cap=<n> need=<n|overflow>" or "PANICKED"
+    fn sweep(&self, len: usize, call: u8, arg: usize) -> String;
+    /// the huge arguments of the sweep for this element size
+    fn sweep_args(&self, len: usize) -> Vec<usize>;
 }
 
 pub struct Cfg<T, M, Tr: ?Sized>(pub PhantomData<(fn() -> T, fn() -> M, fn() -> Box<Tr>)>);
@@ -555,6 +588,40 @@ impl<T: Elem + SatisfyTraits<Tr>, M: MX, Tr: TrX + ?Sized> Runner for Cfg<T, M, 
     fn cloneable(&self) -> bool { Tr::CLONEABLE }
     fn resizable(&self) -> bool { M::RESIZABLE }
     fn fixed_cap(&self) -> Option<usize> { M::fixed_cap(T::SIZE) }
+
+    fn sweep_args(&self, len: usize) -> Vec<usize> {
+        let mut v = vec![usize::MAX, usize::MAX - 1, usize::MAX - len, (usize::MAX - len).wrapping_add(1), usize::MAX / 2, usize::MAX / 2 + 1];
+        if T::SIZE > 0 {
+            let im = (isize::MAX as usize) / T::SIZE;
+            v.extend([im - 1 - len, im - len, im + 1 - len, im + 1, im + 2]);
+            let um = usize::MAX / T::SIZE;
+            v.extend([um - len, um + 1 - len, um + 1]);
+        }
+        v.sort(); v.dedup();
+        v
+    }
+
+    fn sweep(&self, len: usize, call: u8, arg: usize) -> String {
+        if !M::RESIZABLE { return "N/A".into(); }
+        reset_all();
+        galloc::with_as(|st| st.announce_refusals = true);
+        let st = St { len: len as u16, cap: len as u16, spare: Spare::Pristine };
+        let mut w = match World::<T, M, Tr>::build(&st, false) { Ok(w) => w, Err(e) => return format!("MACHINERY {e}") };
+        let a = &mut w.a;
+        let r = guarded(|| match call {
+            0 => { M::cap_call(a, CapCall::Reserve, arg); a.capacity() }
+            1 => { M::cap_call(a, CapCall::ReserveExact, arg); a.capacity() }
+            2 => { let mut t = a.downcast_mut::<T>().unwrap(); M::cap_call_typed(&mut *t, CapCall::Reserve, arg); t.capacity() }
+            _ => { let v = M::with_capacity::<T, Tr>(arg); let c = v.capacity(); drop(v); c }
+        });
+        let need = if call == 3 { Some(arg) } else { len.checked_add(arg) };
+        let s = snap::<T, Tr, M>(&w.a);
+        let intact = snap_matches::<T>(&s, &w.ma);
+        match r {
+            Ok(c) => format!("RETURNED cap={c} need={} intact={intact}", need.map(|n| n.to_string()).unwrap_or("overflow".into())),
+            Err(_) => format!("PANICKED need={} intact={intact}", need.map(|n| n.to_string()).unwrap_or("overflow".into())),
+        }
+    }
 
     fn run(&self, st: &St, e: &Edge, fault_at: u32) -> Out {
         reset_all();
@@ -591,6 +658,7 @@ impl<T: Elem + SatisfyTraits<Tr>, M: MX, Tr: TrX + ?Sized> Runner for Cfg<T, M, 
             Edge::WrongSwap(kind, ty) => w.do_wrong_swap(kind, ty, &mut out),
             Edge::WrongDowncast(kind, ty) => w.do_wrong_downcast(kind, ty, &mut out),
             Edge::TypeReports(_) => w.do_type_reports(&mut out),
+            Edge::Cap(api, call, n) => w.do_cap(api, call, ix(n), &mut out),
             Edge::CloneVec { then } => w.do_clone(then, &mut out),
             Edge::CloneEmpty { then } => w.do_clone_empty(then, &mut out),
             Edge::CloneEmptyIn { target, then } => w.do_clone_empty_in(target, then, &mut out),
